@@ -346,3 +346,32 @@ Proof.
   split; [cbn; unfold u32_ok; lia|]. split; [repeat constructor; cbn; unfold u32_ok; lia|].
   vm_compute. reflexivity.
 Qed.
+
+(* ------------------------------------------------------------------ *)
+(* EVPN routes                                                           *)
+From RB Require Import Proofs.ApiEvpn.
+
+Theorem C17_evpn_roundtrip :
+  forall v6p v6r e, v6_contract v6p v6r -> v6_nonempty v6p -> wf_evpn e ->
+    evpn_from_api v6r (evpn_to_api v6p e) = Some e.
+Proof. exact evpn_roundtrip. Qed.
+
+Theorem C17_evpn_from_api_preserves_wf :
+  forall v6r x e, v6_range v6r -> api_evpn_in_range x -> evpn_from_api v6r x = Some e -> wf_evpn e.
+Proof. intros v6r x e. exact (evpn_from_api_wf (fun _ => []) v6r x e). Qed.
+
+Example v6_nonempty_satisfiable : v6_nonempty toy_p.
+Proof. intros a _. discriminate. Qed.
+
+Example evpn_example :
+  let e := EvPfx (RD2 65000 1) [0; 0; 0; 0; 0; 0; 0; 0; 0; 0] 7 (IP6 1) 128 (IP6 0) 5000 in
+  wf_evpn e /\ evpn_from_api toy_r (evpn_to_api toy_p e) = Some e
+  /\ api_evpn_in_range (evpn_to_api toy_p e)
+  /\ evpn_from_api v6_parse (AEvAd (ARd2 65000 1) (Some (0, [0; 0; 0; 0; 0; 0; 0; 0; 0])) 0 16777216) = None
+  /\ evpn_from_api v6_parse (AEvPfx (ARd2 65000 1) (Some (0, [0; 0; 0; 0; 0; 0; 0; 0; 0])) 0
+                               [49; 48; 46; 48; 46; 48; 46; 49] 33 [] 5) = None.
+Proof.
+  cbn zeta. split; [|split; [vm_compute; reflexivity|split; [|split; vm_compute; reflexivity]]].
+  - cbn. unfold u32_ok, wf_label24. repeat split; try lia; try reflexivity. repeat constructor; lia.
+  - cbn. unfold u32_ok. repeat split; try lia. repeat constructor; lia.
+Qed.
